@@ -443,6 +443,117 @@ func c02units(tier string) []mc.Unit {
 		r.AddNontrivial(cnt)
 		r.Bound("many-features", fmt.Sprintf("records with 1..1001 features (14 counts) over 12 location texts, GOMAXPROCS in %v", procsMenu))
 	}})
+	// feature key x qualifier set x location (with every partial marking): the bases are a function of the location
+	// alone, whatever the feature is and whatever qualifiers it carries
+	us = append(us, mc.Unit{Name: "keys-and-qualifiers", Weight: 80, Run: func(r *mc.Recorder) {
+		var cnt int64
+		parent := "acggtattgcac"
+		keys := []string{"CDS", "gene", "mRNA", "tRNA", "exon", "misc_feature", "5'UTR", "source"}
+		quals := [][][2]string{
+			{{"note", "x"}},
+			{{"codon_start", "1"}},
+			{{"codon_start", "2"}, {"translation", "MK"}},
+			{{"codon_start", "3"}, {"transl_table", "11"}, {"product", "p"}},
+			{{"pseudo", ""}, {"gene", "g"}},
+			{{"transl_except", "(pos:4..6,aa:Sec)"}},
+		}
+		var leaves []*locExpr
+		for _, t := range []string{"1..6", "2..4", "7..9", "4", "12", "3..12"} {
+			e, err := insdcParse(t)
+			if err != nil {
+				panic(err)
+			}
+			leaves = append(leaves, e)
+		}
+		var exprs []*locExpr
+		for _, sh := range append(append(locShapes(0, 1, false), locShapes(1, 1, false)...), append(locShapes(1, 2, false), locShapes(2, 2, false)...)...) {
+			c2fillAll(sh, leaves, func(e *locExpr) {
+				c2partials(e, func(v *locExpr) { exprs = append(exprs, v) })
+			})
+		}
+		for _, key := range keys {
+			for qi, qs := range quals {
+				for _, e := range exprs {
+					txt := e.text()
+					want := e.eval(parent)
+					var b strings.Builder
+					fmt.Fprintf(&b, "LOCUS       test%20d bp    DNA     linear   SYN 01-JAN-2000\nDEFINITION  location test.\nFEATURES             Location/Qualifiers\n", len(parent))
+					fmt.Fprintf(&b, "     %-16s%s\n", key, txt)
+					attrs := map[string]string{}
+					for _, kv := range qs {
+						attrs[kv[0]] = kv[1]
+						switch {
+						case kv[1] == "":
+							fmt.Fprintf(&b, "                     /%s\n", kv[0])
+						case kv[0] == "codon_start" || kv[0] == "transl_table" || kv[0] == "transl_except":
+							fmt.Fprintf(&b, "                     /%s=%s\n", kv[0], kv[1])
+						default:
+							fmt.Fprintf(&b, "                     /%s=\"%s\"\n", kv[0], kv[1])
+						}
+					}
+					fmt.Fprintf(&b, "ORIGIN\n        1 %s %s\n//\n", parent[:10], parent[10:])
+					cas := fmt.Sprintf("%s feature with qualifier set %d and location %s on %s", key, qi, txt, parent)
+					var got string
+					var n int
+					cnt++
+					if p := catch(func() {
+						s := genbank.Parse([]byte(b.String()))
+						n = len(s.Features)
+						if n == 1 {
+							got = s.Features[0].GetSequence()
+						}
+					}); p != "" || n != 1 || got != want {
+						r.Failf("parsed-location-bases", cas, []string{"keys"}, want, fmt.Sprintf("%q (%d features) %s", got, n, p))
+					}
+					seq := poly.Sequence{Sequence: parent}
+					f := poly.Feature{Type: key, Attributes: attrs, SequenceLocation: e.toPoly()}
+					cnt++
+					if p := catch(func() {
+						seq.AddFeature(&f)
+						got = seq.Features[0].GetSequence()
+					}); p != "" || got != want {
+						r.Failf("assembled-location-bases", cas, []string{"keys"}, want, got+p)
+					}
+				}
+				if r.Enough() {
+					return
+				}
+			}
+		}
+		r.Eval(cnt)
+		r.AddStates(cnt)
+		r.AddTransitions(cnt)
+		r.AddNontrivial(cnt)
+		r.Bound("keys-and-qualifiers", fmt.Sprintf("8 feature keys x 6 qualifier sets x %d locations (all shapes with <= 2 operators and <= 2 leaves over 6 leaves, every partial marking), parsed and assembled", len(exprs)))
+	}})
+	// after many failing calls (malformed locations, recovered): the in-domain battery once more
+	us = append(us, mc.Unit{Name: "after-failures", Weight: 40, Run: func(r *mc.Recorder) {
+		var cnt int64
+		var fails []func()
+		for _, bad := range []string{"order(1..2,4..5)", "join(1..2,4..5", "complement(", "1..", "..5", "x", "join()", "1^2", "bond(1,2)", "complement(complement(join(1..2", "J00194.1:1..3", "<", "join(1..2,)", "99999999999999999999..3"} {
+			bad := bad
+			fails = append(fails, func() {
+				s := genbank.Parse(c2record(bad, "acggta"))
+				for _, f := range s.Features {
+					f.GetSequence()
+				}
+			})
+		}
+		soak(40, fails...)
+		for _, a := range four {
+			for _, b := range four {
+				for _, c := range four {
+					e := &locExpr{kind: lkJoin, subs: []*locExpr{a, {kind: lkComp, subs: []*locExpr{{kind: lkJoin, subs: []*locExpr{b, {kind: lkComp, subs: []*locExpr{c}}}}}}}}
+					c2one(r, e, c2parents, &cnt)
+				}
+			}
+		}
+		r.Eval(cnt)
+		r.AddStates(cnt)
+		r.AddTransitions(cnt)
+		r.AddNontrivial(cnt)
+		r.Bound("after-failures", "40 rounds of 14 malformed locations (panics recovered), then all depth-4 chains over a 4-leaf subset")
+	}})
 	return us
 }
 
